@@ -37,7 +37,8 @@ impl RaftIndexInnerManager {
             .await?;
         let meta = file.metadata().await?;
         //log::info!("index file len:{}",meta.len());
-        let (last_applied_log, raft_index) = if meta.len() <= 20 {
+        // 8 header bytes + the single length byte of an empty index: nothing has been saved yet
+        let (last_applied_log, raft_index) = if meta.len() <= 9 {
             //init write
             let index = RaftIndex::default();
             /*
